@@ -77,16 +77,22 @@ pub fn configs(tier: Tier) -> Vec<(Cfg, Plan)> {
     let mut v = Vec::new();
     for pattern in PATTERNS {
         for variant in VARIANTS {
-            let depth = match (q, variant.is_ipc()) {
-                (true, true) => 3,
-                (true, false) => 5,
-                (false, true) => 4,
-                (false, false) => 6,
+            // cost per execution: ipc ~100 ms CPU (files, shared memory, TOML), local ~5 ms
+            let depth = match (q, variant) {
+                (true, Variant::Ipc | Variant::IpcThreadsafe) => 2,
+                (true, Variant::Local | Variant::LocalThreadsafe) => 3,
+                (false, Variant::Ipc | Variant::IpcThreadsafe) => 3,
+                (false, Variant::Local) => 5,
+                (false, Variant::LocalThreadsafe) => 4,
             };
-            // depth 6 for one variant per pattern, 5 for the other local variant
-            let depth = if !q && variant == Variant::LocalThreadsafe { 5 } else { depth };
-            let split = if variant.is_ipc() { 9 } else if q { 4 } else { 9 };
-            v.push((Cfg { pattern, variant, mode: Mode::History }, Plan { tree_depth: depth, finish_prefixes: false, frontier: if variant.is_ipc() { None } else { Some((400, 8)) }, split }));
+            let split = match (q, variant.is_ipc()) {
+                (true, true) => 6,
+                (true, false) => 6,
+                (false, _) => 12,
+            };
+            // breadth-first over distinct model states reaches the deep states (3 live handles,
+            // re-creation after the last drop) cheaply in every configuration
+            v.push((Cfg { pattern, variant, mode: Mode::History }, Plan { tree_depth: depth, finish_prefixes: false, frontier: Some((200, if q { 6 } else { 8 })), split }));
         }
     }
     for pattern in PATTERNS {
@@ -623,7 +629,7 @@ impl<S: Service + 'static> Drop for World<S> {
     fn drop(&mut self) {
         self.handles.clear();
         self.nodes.clear();
-        self.domain.remove();
+        self.domain.remove(self.cfg.variant.is_ipc());
     }
 }
 
@@ -639,30 +645,39 @@ impl<S: Service + 'static> WorldDyn for World<S> {
             return v.into_iter().map(crate::Op::C06).collect();
         }
         let room = self.handles.len() < MAX_LIVE_HANDLES;
-        // successful acquisitions are offered only while there is room for the handle; the
-        // refused ones (create on existing, incompatible open, ...) always
-        for node in 0..2 {
-            for vv in [V::A, V::B] {
-                if self.exists.is_some() || room {
-                    v.push(Op::Create { node, v: vv });
+        // Symmetry: while no handle is alive the two nodes are interchangeable (a node without a
+        // handle carries no service state), so only node 0 acts. Successful acquisitions are offered
+        // only while there is room for the handle; refused calls always. Calls that are refused for
+        // a reason that does not depend on the argument are offered with one argument value only.
+        let nodes: &[usize] = if self.handles.is_empty() { &[0] } else { &[0, 1] };
+        for &node in nodes {
+            match self.exists {
+                None => {
+                    if room {
+                        v.push(Op::Create { node, v: V::A });
+                        v.push(Op::Create { node, v: V::B });
+                    }
                 }
+                Some(_) => v.push(Op::Create { node, v: V::B }), // AlreadyExists whatever the settings
             }
         }
-        for node in 0..2 {
-            for req in [Req::Any, Req::AsB, Req::Incompatible] {
-                let succeeds = match (self.exists, req) {
-                    (Some(_), Req::Any) => true,
-                    (Some(V::B), Req::AsB) => true,
-                    _ => false,
-                };
+        for &node in nodes {
+            let reqs: &[Req] = match (self.exists, node) {
+                (None, _) => &[Req::Any, Req::Incompatible], // DoesNotExist whatever the requirement
+                (Some(_), 0) => &[Req::Any],
+                (Some(_), _) => &[Req::Any, Req::AsB, Req::Incompatible],
+            };
+            for &req in reqs {
+                let succeeds = matches!((self.exists, req), (Some(_), Req::Any) | (Some(V::B), Req::AsB));
                 if !succeeds || room {
                     v.push(Op::Open { node, req });
                 }
             }
         }
         if self.cfg.pattern != Pattern::Blackboard {
-            for node in 0..2 {
-                for vv in [V::A, V::B] {
+            for &node in nodes {
+                let vs: &[V] = if self.exists.is_some() && node == 0 { &[V::A] } else { &[V::A, V::B] };
+                for &vv in vs {
                     let succeeds = !(self.exists == Some(V::A) && vv == V::B);
                     if !succeeds || room {
                         v.push(Op::OpenOrCreate { node, v: vv });
@@ -762,7 +777,7 @@ impl<S: Service + 'static> WorldDyn for World<S> {
         self.nodes.clear();
         let left = self.domain.leftovers();
         ensure!(left.is_empty(), "c06-leftover", "finish", "after all handles and nodes are gone the domain contains {:?}", self.domain.canon(&left));
-        self.domain.remove();
+        self.domain.remove(self.cfg.variant.is_ipc());
         Ok(())
     }
 
